@@ -25,6 +25,8 @@ pub struct FlowCtx {
     pub cont_min: usize,
     /// continuation lines may start at column 0 (then they must not look like a document marker)
     pub top_level: bool,
+    /// the first character of the scalar may stand at column 0 (where `---` / `...` are document markers)
+    pub first_col0: bool,
 }
 
 fn is_blank(c: char) -> bool {
@@ -93,8 +95,8 @@ pub fn plain_ok(t: &str, ctx: FlowCtx) -> bool {
     if !newlines_foldable(&v) {
         return false;
     }
-    // document markers at the very start of a (possibly column-0) scalar
-    if t.starts_with("---") || t.starts_with("...") {
+    // document markers at the very start of a (possibly column-0) scalar; an indented `---` is text
+    if ctx.first_col0 && (t.starts_with("---") || t.starts_with("...")) {
         return false;
     }
     for i in 0..v.len() {
@@ -118,7 +120,10 @@ pub fn plain_ok(t: &str, ctx: FlowCtx) -> bool {
         // could be read as an indicator or a document marker
         if c == '\n' {
             if let Some(n) = next {
-                if n != '\n' && !(n.is_alphanumeric() || (n as u32) > 0x7f) {
+                // continuation lines that are always indented may also begin with `---` / `...`
+                let rest: String = v[i + 1..].iter().take(3).collect();
+                let marker_like = ctx.cont_min >= 1 && (rest == "---" || rest == "...");
+                if n != '\n' && !(n.is_alphanumeric() || (n as u32) > 0x7f) && !marker_like {
                     return false;
                 }
             }
@@ -298,6 +303,23 @@ pub fn render_flow_scalar(t: &str, style: FStyle, ctx: FlowCtx, r: &mut Rng, fol
         FStyle::Single => out.push('\''),
         FStyle::Double => out.push('"'),
         FStyle::Plain => {}
+    }
+    // a continuation line of a quoted scalar that could stand at column 0 must not begin like a
+    // document marker (`---` / `...` followed by a blank, a break or the end): indent it by one
+    // blank (leading blanks of continuation lines are not content)
+    if ctx.cont_min == 0 && !matches!(style, FStyle::Plain) {
+        let mut fixed = String::with_capacity(out.len() + 4);
+        let chars: Vec<char> = out.chars().collect();
+        for (k, c) in chars.iter().enumerate() {
+            fixed.push(*c);
+            if *c == '\n' {
+                let rest: String = chars[k + 1..].iter().take(4).collect();
+                if rest.starts_with("---") || rest.starts_with("...") {
+                    fixed.push(' ');
+                }
+            }
+        }
+        out = fixed;
     }
     Some(out)
 }
